@@ -37,6 +37,17 @@ def library_ranges(mapfile):
 def make_history(h, desc, vals, fns, rng, length):
     steps = []
     while len(steps) < length:
+        if rng.random() < 0.06:
+            # a collection owned by the history step alone (init, load a generated file, add, list, look up, free): leaves nothing behind, so it is a
+            # query like any other; some files carry a number no double can hold, some are malformed
+            import c17
+            l = c17.private_array_line(rng)
+            if rng.random() < 0.3:
+                name, cap, text, q = l.split("\t")
+                s = bytes.fromhex(text[2:]).decode("latin-1").replace("#UCELL ", "#UCELL 1e999 ", 1)
+                l = "\t".join([name, cap, calls.hx(s), q])
+            steps.append(("@private_array", None, l))
+            continue
         fn = rng.choice(fns)
         sw = apisweep.sweep(h, desc, vals, fn, 6, True)
         if not sw:
@@ -93,7 +104,7 @@ def work(item):
     fns = sorted(desc)
     for hi in range(nhist):
         steps = make_history(h, desc, vals, fns, rng, rng.randint(10, length))
-        lines = [calls.line(fn, kinds, args) for fn, kinds, args in steps]
+        lines = [args if fn == "@private_array" else calls.line(fn, kinds, args) for fn, kinds, args in steps]
         out_h, rc1, err1 = calls.run(exe, "history", lines, sdir, tag + "_h", extra_args=[rangesf])
         out_f, rc2, err2 = calls.run(exe, "fresh", lines, sdir, tag + "_f")
         hist_desc = [l.replace("\t", " ")[:100] for l in lines]
